@@ -171,6 +171,7 @@ func (e *Exec) finishPath(st *State, fr *Frame, res Value, in *ssa.Return) {
 		e.emit(st, name, "ensures", en.Labels, g, fmt.Sprintf("%s:%d", en.File, en.Line))
 		for _, o := range e.obls[n0:] {
 			o.Site = site
+			o.Try = en.Try
 		}
 	}
 	e.checkFrame(st, fr, env)
